@@ -82,6 +82,7 @@ type CheckCtx struct {
 	Extra     []*Obligation // obligations decided by non-SMT engines (status already set)
 	Bounded   []BoundedCheck
 	Tables    []string
+	ExtraFuncs []string // functions under contract that are verified by an engine other than E-VC (generated machines)
 	Assume    map[string]bool
 	Trusted   map[string]bool
 	Samples   []interface{}
@@ -238,7 +239,7 @@ func runCheck(prop, tier string) int {
 	nObl, nDis := 0, 0
 	byBackend := map[string]int{}
 	byClass := map[string]int{}
-	var funcs []string
+	funcs := append([]string{}, c.ExtraFuncs...)
 	var outOfSubset []string
 	var samples []interface{}
 	vacuous := 0
